@@ -1256,7 +1256,11 @@ func (st *fstate) call(in ssa.Instruction, c *ssa.CallCommon, res ssa.Value) {
 		// a shortened re-slice x[:k] handed to a function that appends to that parameter: the append lands in x's own
 		// elements beyond k whenever they fit (append onto spare capacity), exactly as a local append(x[:k], …) does
 		for j, a := range c.Args {
-			if sl, ok := a.(*ssa.Slice); ok && sl.High != nil && sl.Max == nil && e.appendsTo(f, j) {
+			if _, isSlice := a.Type().Underlying().(*types.Slice); !isSlice || !e.appendsTo(f, j) {
+				continue
+			}
+			// the re-slice may reach the call through the φ of an accumulating loop (dst := x[:0]; for … { dst = f(dst, e) })
+			for _, sl := range shortenedOrigins(a) {
 				if _, isArr := sl.X.Type().Underlying().(*types.Pointer); !isArr {
 					st.mut(st.get(sl.X), elemType(a.Type()), in, "a shortened re-slice x[:k] is handed to "+shortName(f)+", which appends to it: the elements of x beyond k are overwritten", nil)
 				}
@@ -2210,6 +2214,15 @@ func shortenedOrigins(v ssa.Value) []*ssa.Slice {
 		case *ssa.Call:
 			if b, ok := x.Call.Value.(*ssa.Builtin); ok && b.Name() == "append" && len(x.Call.Args) > 0 {
 				walk(x.Call.Args[0], d+1)
+				return
+			}
+			// dst = g(dst, …) with g a module function returning a slice of the same type: the accumulator goes through g
+			if g := x.Call.StaticCallee(); g != nil && inModule(g) {
+				for _, a := range x.Call.Args {
+					if types.Identical(a.Type(), x.Type()) {
+						walk(a, d+1)
+					}
+				}
 			}
 		}
 	}
